@@ -77,6 +77,8 @@ class State:
         self.labels = []  # human readable decisions, for reports
         self.inputs = {}  # name -> symbolic input description (for model decoding)
         self.depth = 0
+        self.foralls = []  # python callables j -> z3 Bool: universally quantified facts, instantiated by hand
+        self.triggers = []  # z3 Int terms at which every forall fact is instantiated
         self._s = z3.Solver()  # incremental solver mirroring pc (feasibility / must queries)
         self._s.set("timeout", FEAS_TIMEOUT_MS)
         self._synced = 0
@@ -220,6 +222,37 @@ class State:
         self.ufapps.append(UFApp(fname, rope, tuple(extra), res, native, bounded_def))
         return res
 
+    def add_forall(self, fact):
+        self.foralls.append(fact)
+
+    def add_trigger(self, term):
+        t = z3.simplify(term) if not isinstance(term, int) else z3.IntVal(term)
+        for u in self.triggers:
+            if u.eq(t):
+                return
+        self.triggers.append(t)
+
+    def instances(self, exprs=()):
+        """hand instantiation of the recorded forall-facts (sound: every instance of a true universally quantified
+        fact is true).  Trigger terms: the recorded ones, the path's Skolem constants, and -- E-matching on the
+        pattern base(j) -- every index at which a byte array is read in the VC."""
+        out = []
+        if not self.foralls:
+            return out
+        from .values import base_apps
+        trig = {}
+        for t in list(self.triggers) + list(self.skolems):
+            trig[t.get_id()] = t
+        for e in exprs:
+            for a in base_apps(e):
+                t = a.arg(0)
+                trig[t.get_id()] = t
+        trig = list(trig.values())[:400]
+        for f in self.foralls:
+            for t in trig:
+                out.append(f(t))
+        return out
+
     def skolem(self, prefix="k"):
         k = z3.Int(fresh_name(prefix))
         self.skolems.append(k)
@@ -281,6 +314,7 @@ class State:
         s = z3.Solver()
         s.set("timeout", SOLVER_TIMEOUT_MS)
         ax = self.axioms()
+        ax = ax + self.instances(self.pc + ax + list(extra))
         for c in self.pc:
             s.add(c)
         for a in ax:
@@ -404,7 +438,7 @@ class State:
 
     def _minimise(self, s):
         """prefer a counter-model with short byte strings (iterative bound on every bytes input)"""
-        lens = [zint(d[2]) for d in self.inputs.values() if d[0] == "bytes" and not isinstance(d[2], int)]
+        lens = [zint(d[2]) for d in self.inputs.values() if d[0] in ("bytes", "stream", "socket") and not isinstance(d[2], int)]
         lens = [l for l in lens if not z3.is_int_value(l)]
         best = s.model()
         if not lens:
